@@ -8,7 +8,7 @@ from func_adl.type_based_replacement import register_func_adl_os_collection, rem
 
 from vlib.sh.common import HI, LO, TWIN, L, attr, call, const, dump, lam, mcall, name, nt, pick, tick
 
-NPOSN = 11
+NPOSN = 12
 
 
 class Trk:
@@ -111,6 +111,8 @@ def target(pos, n):
         return getattr(Jet, "m%d" % n), "m%d" % n
     if pos == 9:
         return getattr(Odd, "m%d" % n), "m%d" % n
+    if pos == 11:
+        return getattr(Jet, "m%d" % n), "m%d" % n
     if pos == 10:
         return [fs1, fs2, fs3][n - 1], "fs%d" % n
     return [fn1, fn2, fn3][n - 1], "fn%d" % n
@@ -139,6 +141,10 @@ def site(pos, fname, args, kws):
         return TDS(), ast.BinOp(ast.Call(name(fname), args, kws), ast.Add(), const(1))
     if pos == 9:
         return TDS(), ast.Call(ast.Attribute(mcall(name("e"), "odd"), fname, L), args, kws)
+    if pos == 11:
+        # the call site sits in a lambda that is handed to Where BY KEYWORD, inside the stream lambda; more typed call sites follow the Where
+        w = ast.Call(ast.Attribute(mcall(name("e"), "Jets"), "Where", L), [], [ast.keyword("filter", lam("j", ast.Compare(ast.Call(attr("j", fname), args, kws), [ast.Gt()], [const(0)])))])
+        return TDS(), mcall(w, "Count")
     if pos == 7:
         # the receiver is the result of a registered function whose own call has to be normalised (default omitted)
         return TDS(), ast.Call(ast.Attribute(ast.Call(name("lead"), [name("e")], []), fname, L), args, kws)
@@ -153,13 +159,15 @@ def op_calls(n):
     out = []
     for x in ast.walk(n):
         if isinstance(x, ast.Call) and isinstance(x.func, ast.Attribute) and x.func.attr in OPS:
-            out.append((x.func.attr, len(x.args), len(x.keywords)))
+            # nothing may be added to or dropped from what the user wrote (a lambda given as filter=... may become positional: the operators are
+            # methods of a class the follower knows, only their internal known_types parameter must never be filled in)
+            out.append((x.func.attr, len(x.args) + len(x.keywords)))
     return sorted(out)
 
 
 def c07(code: int, ndef: int, npos: int, kwmask: int, perm: int, v0: int, v1: int, v2: int, d0: int, d1: int, d2: int) -> str:
     """
-    pre: LO <= code < HI and 0 <= code < 33
+    pre: LO <= code < HI and 0 <= code < 36
     pre: 0 <= ndef <= 3 and 0 <= npos <= 3 and 0 <= kwmask < 8 and 0 <= perm < 6
     post: (_ == '') != TWIN
     """
